@@ -219,6 +219,63 @@ def make_case(rng):
             "weight": 1.0 if w is None else w, "rows": rows}
 
 
+def history_case(rng):
+    """`the activation degree of a LOADED rule equals its weight times the value of its antecedent`: the rule is the one
+    its current text says, however the Rule object got there.  The final step of every history is `rule.load(engine)`
+    called directly on the object (not through a rule block, which unloads its rules first); before that the object was
+    created and loaded with an earlier text (another rule of the grammar over the same engine, with its own weight - or
+    the same text), in this engine or in a second build of it whose input values stay unset, was possibly evaluated,
+    possibly unloaded, and got its present text through `rule.text = ...` or `rule.parse(...)`.  Nothing of the
+    earlier expression, weight or engine may survive: the observations are those of a freshly created rule."""
+    while True:
+        case = make_case(rng)
+        if case["kind"] == "wf":
+            break
+    vars_ = case["vars"]
+    if rng.random() < 0.8:
+        tree = gen_ante(rng, vars_, rng.choice([0, 1, 1, 2, 3]))
+        ov = [v for v in vars_ if v["out"]][-1]
+        w = rng.choice([None, 0.5, 0.25, 2.0, round(rng.random(), 3)])
+        first = "if " + " ".join(awriting(tree, 0, 0)) + f" then {ov['name']} is {ov['terms'][-1][0]}"
+        if w is not None:
+            first += f" with {w}"
+    else:
+        first = case["text"]
+    steps = ["activate"] if rng.random() < 0.4 else []
+    change = [rng.choice(["set_text", "parse"])]
+    r = rng.random()
+    steps += (["unload"] + change) if r < 0.15 else (change + ["unload"]) if r < 0.3 else change
+    steps += ["load"] + (["load"] if rng.random() < 0.15 else [])
+    case["history"] = {"first": first, "engine": "same" if rng.random() < 0.8 else "other", "steps": steps}
+    return case
+
+
+def create_rule(case, engine):
+    """the loaded Rule object of the case: `Rule.create(text, engine)`, or the object obtained by the case's history"""
+    h = case.get("history")
+    if not h:
+        return fl.Rule.create(case["text"], engine)
+    rule = fl.Rule.create(h["first"], engine if h["engine"] == "same" else build_engine(case))
+    for step in h["steps"]:
+        if step == "activate":
+            try:
+                with np.errstate(all="ignore"):
+                    rule.activate_with(norm_of(case["conj"], "t"), norm_of(case["disj"], "s"))
+            except Exception:  # noqa: BLE001
+                pass        # a missing operator / unloaded rule: the evaluation is only a step of the history
+        elif step == "set_text":
+            rule.text = case["text"]
+        elif step == "parse":
+            rule.parse(case["text"])
+        elif step == "unload":
+            rule.unload()
+        elif step == "load":
+            rule.load(engine)
+        else:
+            raise AssertionError(step)
+    return rule
+
+
 # ------------------------------------------------------------------------------------------------ implementation side
 def errkind(ex):
     if isinstance(ex, RecursionError):
@@ -262,7 +319,7 @@ def run_impl(case):
     out = {"load": "ok", "postfix": None, "infix": None, "degrees": None, "batch": None, "msg": None, "attr_ok": True}
     engine = build_engine(case)
     try:
-        rule = fl.Rule.create(case["text"], engine)
+        rule = create_rule(case, engine)
     except Exception as ex:  # noqa: BLE001
         out["load"] = errkind(ex)
         out["msg"] = f"{type(ex).__name__}: {str(ex)[:200]}"
@@ -390,6 +447,15 @@ def key(case):
 
 
 def oracle(case):
+    ok, detail = oracle_fresh(case)
+    h = case.get("history")
+    if not ok and h:
+        detail += (f" [the Rule object was created with '{h['first']}' in {'this' if h['engine'] == 'same' else 'another'} "
+                   f"engine, then: {', '.join(h['steps'])} - the last load(engine) called on the rule itself]")
+    return ok, detail
+
+
+def oracle_fresh(case):
     r = run_impl(case)
     if r["load"].startswith("INTERNAL"):
         return False, f"internal error loading '{case['text']}': {r['msg']}"
@@ -502,10 +568,14 @@ def correspond(ctx):
     st = ctx.stats
     mism = []
     cs = corpus() + [make_case(ctx.rng) for _ in range(ctx.scale(2500, 30000))]
+    # rule objects with a history (drawn after the main stream): the model reads the present text only
+    cs += [history_case(ctx.rng) for _ in range(ctx.scale(250, 3000))]
     outs = ctx.driver.eval([model_line(c) for c in cs])
     for idx, (case, o) in enumerate(zip(cs, outs)):
         st.count(f"depth{depth_of(case['tree'])}")
         st.count(case["style"])
+        if case.get("history"):
+            st.count("history:" + ">".join(case["history"]["steps"]))
         if o in ("bad-op", "bad-parse"):
             mism.append({"case": case, "model": o, "what": "driver could not read the case (term class / operator unknown "
                                                            "to the regenerated model?)"})
@@ -574,7 +644,8 @@ def correspond(ctx):
 
 
 def search(ctx):
-    for c in corpus() + [make_case(ctx.rng) for _ in range(ctx.scale(3000, 20000))]:
+    for c in corpus() + [make_case(ctx.rng) for _ in range(ctx.scale(3000, 20000))] + \
+            [history_case(ctx.rng) for _ in range(ctx.scale(300, 2000))]:
         ok, d = oracle(c)
         if not ok:
             return [(c, d)]
